@@ -8,6 +8,8 @@ use nvh::*;
 use renoir::verif::{ops, ScriptOp};
 
 fn gen(rng: &mut Rng, _i: usize) -> Case {
+    // per-component stream: components run with the same --seed must not draw identical sequences
+    let rng = &mut Rng::new(rng.next() ^ 0xF01D_0000_0000_0001);
     let name = *rng.pick(FNS);
     let cfg = ScriptCfg {
         max_len: 12,
